@@ -4,6 +4,7 @@ import (
 	"encoding/json"
 	"fmt"
 	"io/ioutil"
+	"math/rand"
 	"net"
 	"net/http"
 	"os"
@@ -56,6 +57,17 @@ func (b *rsBackend) ServeHTTP(rw http.ResponseWriter, req *http.Request) {
 	rw.Header().Set("Content-Type", "text/plain")
 	rw.Header().Set("X-Ver", strconv.Itoa(v))
 	rw.Header()["X-Multi"] = []string{"one", "two"}
+	if strings.Contains(key, "/big/") {
+		// 256 kB that do not compress, the same length for every key, other bytes for every version
+		rw.Header().Set("Content-Type", "image/png")
+		head := fmt.Sprintf("version %d of %s\n", v, key)
+		body := make([]byte, 256*1024)
+		rand.New(rand.NewSource(int64(v))).Read(body)
+		copy(body, head)
+		rw.WriteHeader(200)
+		_, _ = rw.Write(body)
+		return
+	}
 	rw.WriteHeader(200)
 	_, _ = rw.Write([]byte(fmt.Sprintf("version %d of %s\n%s", v, key, strings.Repeat("payload ", 300))))
 }
@@ -117,6 +129,12 @@ func Restart(w *world.World, raws []json.RawMessage) ([]interface{}, error) {
 		_ = ioutil.WriteFile(cfg2, rsYAML(port2, back, "badger://"+storeDir), 0600)
 		o := map[string]interface{}{"case": raw, "i": ci, "started": false, "waited": 0, "probes": []interface{}{}}
 		func() {
+			pikeExtraEnv = nil
+			if c.KeyShape == "big" {
+				// a machine with one CPU: what one request leaves in a per-CPU pool is what the next one finds there
+				pikeExtraEnv = []string{"GOMAXPROCS=1"}
+			}
+			defer func() { pikeExtraEnv = nil }()
 			p1, err := startPike(bin, cfg1)
 			if err != nil {
 				o["infra"] = err.Error()
@@ -139,6 +157,10 @@ func Restart(w *world.World, raws []json.RawMessage) ([]interface{}, error) {
 			for k := 0; k < c.Keys; k++ {
 				if c.KeyShape == "long" {
 					keys = append(keys, &before{key: fmt.Sprintf("/r/%d/long?tok=%s&part=%d", ci, strings.Repeat("x", 66000), k)})
+					continue
+				}
+				if c.KeyShape == "big" {
+					keys = append(keys, &before{key: fmt.Sprintf("/r/%d/big/%03d", ci, k)})
 					continue
 				}
 				keys = append(keys, &before{key: fmt.Sprintf("/r/%d/%d", ci, k)})
@@ -178,8 +200,19 @@ func Restart(w *world.World, raws []json.RawMessage) ([]interface{}, error) {
 				}
 				p1.kill()
 			default:
+				if c.KeyShape == "big" {
+					// all at once: the records are handed to the store in quick succession
+					var wg sync.WaitGroup
+					for _, b := range keys {
+						wg.Add(1)
+						go func(b *before) { defer wg.Done(); fetch(b) }(b)
+					}
+					wg.Wait()
+				}
 				for _, b := range keys {
-					fetch(b)
+					if !b.delivered {
+						fetch(b)
+					}
 				}
 				// second request: a hit, so that the entry has certainly been published and saved
 				for _, b := range keys {
